@@ -154,6 +154,31 @@ impl Code for bool {
     }
 }
 
+/// Read exactly `len` bytes from the reader.
+///
+/// `len` comes from the encoded data itself and the data may be corrupted (e.g. compressed bytes decoded as raw
+/// bytes after a bit flip on disk), so it is not trusted as an allocation size: a garbage length must end in an
+/// error, not in a capacity overflow panic or an allocation failure abort.
+#[cfg(not(feature = "serde"))]
+fn read_bytes(reader: &mut impl std::io::Read, len: usize) -> Result<Vec<u8>> {
+    use std::io::Read;
+
+    const MAX_PREALLOCATION: usize = 1024 * 1024;
+
+    let mut v = Vec::with_capacity(len.min(MAX_PREALLOCATION));
+    let read = reader
+        .by_ref()
+        .take(len as u64)
+        .read_to_end(&mut v)
+        .map_err(Error::io_error)?;
+    if read != len {
+        return Err(Error::io_error(std::io::Error::from(
+            std::io::ErrorKind::UnexpectedEof,
+        )));
+    }
+    Ok(v)
+}
+
 #[cfg(not(feature = "serde"))]
 impl Code for Vec<u8> {
     fn encode(&self, writer: &mut impl std::io::Write) -> Result<()> {
@@ -161,18 +186,12 @@ impl Code for Vec<u8> {
         writer.write_all(self).map_err(Error::io_error)
     }
 
-    #[expect(clippy::uninit_vec)]
     fn decode(reader: &mut impl std::io::Read) -> Result<Self>
     where
         Self: Sized,
     {
         let len = usize::decode(reader)?;
-        let mut v = Vec::with_capacity(len);
-        unsafe {
-            v.set_len(len);
-        }
-        reader.read_exact(&mut v).map_err(Error::io_error)?;
-        Ok(v)
+        read_bytes(reader, len)
     }
 
     fn estimated_size(&self) -> usize {
@@ -187,15 +206,12 @@ impl Code for String {
         writer.write_all(self.as_bytes()).map_err(Error::io_error)
     }
 
-    #[expect(clippy::uninit_vec)]
     fn decode(reader: &mut impl std::io::Read) -> Result<Self>
     where
         Self: Sized,
     {
         let len = usize::decode(reader)?;
-        let mut v = Vec::with_capacity(len);
-        unsafe { v.set_len(len) };
-        reader.read_exact(&mut v).map_err(Error::io_error)?;
+        let v = read_bytes(reader, len)?;
         String::from_utf8(v)
             .map_err(|e| Error::new(crate::error::ErrorKind::Parse, "failed to parse String").with_source(e))
     }
@@ -212,15 +228,12 @@ impl Code for bytes::Bytes {
         writer.write_all(self).map_err(Error::io_error)
     }
 
-    #[expect(clippy::uninit_vec)]
     fn decode(reader: &mut impl std::io::Read) -> Result<Self>
     where
         Self: Sized,
     {
         let len = usize::decode(reader)?;
-        let mut v = Vec::with_capacity(len);
-        unsafe { v.set_len(len) };
-        reader.read_exact(&mut v).map_err(Error::io_error)?;
+        let v = read_bytes(reader, len)?;
         Ok(bytes::Bytes::from(v))
     }
 
